@@ -61,6 +61,21 @@ func c01Label(site string) string {
 }
 
 func c01Gen(r *rand.Rand, tier string, idx int) []string {
+	if idx%10 == 9 {
+		cfg := []string{"16:6", "8:6,32:4", "16:4,64:3", "8:3,16:3,64:2", "32:2"}[r.Intn(5)]
+		ops := []string{"mgr " + cfg}
+		out := 0
+		for i := 0; i < 6+r.Intn(20); i++ {
+			if out > 0 && r.Intn(3) == 0 {
+				ops = append(ops, fmt.Sprintf("r %d", r.Intn(out)))
+				out--
+			} else {
+				ops = append(ops, fmt.Sprintf("w %d", []int{1, 7, 8, 9, 16, 17, 31, 32, 33, 40, 64, 65, 100, 130, 200}[r.Intn(15)]))
+				out++
+			}
+		}
+		return ops
+	}
 	n := 1 + r.Intn(5)
 	nth := 1 + r.Intn(3)
 	ops := []string{fmt.Sprintf("init %d", n)}
@@ -382,7 +397,99 @@ func (c *c01Run) quiesce() {
 	}
 }
 
+// ---- manager-level sequential scenario (no model; C02's "recycle-chain" clause on the real bufferManager) ----
+//   mgr <cap:num,...>     exact-fit memory with these size classes
+//   w <n>                 a writer allocates a message of n bytes (multi-slice chain when needed) and links it (done)
+//   r <i>                 the receiving side looks the i-th outstanding message up by its offset and recycles the chain
+// at the end everything is recycled: every class must offer its full capacity and its chain must visit every slot once
+func c01Mgr(ops []string) vResult {
+	var out []string
+	fail, key := "", ""
+	setFail := func(k, w string) {
+		if fail == "" {
+			fail, key = w, k
+		}
+	}
+	var bm *bufferManager
+	var roots []uint32
+	for _, op := range ops {
+		f := vFields(op)
+		switch {
+		case len(f) == 2 && f[0] == "mgr" && bm == nil:
+			caps, nums := c06Classes(strings.Split(f[1], ","))
+			if len(caps) == 0 {
+				out = append(out, "bad-op")
+				continue
+			}
+			_, b, _, err := c06BuildMem(caps, nums)
+			if err != nil {
+				out = append(out, "bad-op")
+				continue
+			}
+			bm = b
+			out = append(out, "ok")
+		case len(f) == 2 && f[0] == "w" && bm != nil:
+			n := vAtoi(f[1])
+			if n < 1 || n > 1<<14 {
+				out = append(out, "bad-op")
+				continue
+			}
+			lb := newEmptyLinkedBuffer(bm)
+			lb.WriteBytes(make([]byte, n))
+			if !lb.isFromShareMemory() {
+				lb.recycle() // did not fit into share memory: give back what was taken
+				out = append(out, "nomem")
+				continue
+			}
+			lb.done(false)
+			roots = append(roots, lb.rootBufOffset())
+			out = append(out, "ok")
+		case len(f) == 2 && f[0] == "r" && bm != nil:
+			i := vAtoi(f[1])
+			if i < 0 || i >= len(roots) {
+				out = append(out, "noop")
+				continue
+			}
+			sl, err := bm.readBufferSlice(roots[i])
+			roots = append(roots[:i], roots[i+1:]...)
+			if err != nil {
+				// S (C02): a message the allocator handed out can be found again and given back
+				setFail("message-not-readable", fmt.Sprintf("readBufferSlice(%d) of an outstanding message failed: %v", roots, err))
+				out = append(out, "err")
+				continue
+			}
+			bm.recycleBuffers(sl)
+			out = append(out, "ok")
+		default:
+			out = append(out, "bad-op")
+		}
+	}
+	if bm != nil {
+		for _, off := range roots {
+			if sl, err := bm.readBufferSlice(off); err == nil {
+				bm.recycleBuffers(sl)
+			} else {
+				setFail("message-not-readable", fmt.Sprintf("readBufferSlice(%d) of an outstanding message failed: %v", off, err))
+			}
+		}
+		// S (C02): whenever every allocated buffer has been recycled each class offers its full capacity again and
+		// the free chain visits every slot exactly once
+		for ci, l := range bm.lists {
+			if int(*l.size) != int(*l.cap) {
+				setFail("mgr-leak", fmt.Sprintf("every message recycled, class %d (slices of %d bytes) offers %d of %d buffers", ci, *l.capPerBuffer, *l.size, *l.cap))
+			}
+			if n := computeFreeSliceNum(l); n != int(*l.cap) {
+				setFail("mgr-chain", fmt.Sprintf("every message recycled, the free chain of class %d visits %d slots, capacity %d", ci, n, *l.cap))
+			}
+		}
+	}
+	return vResult{out: out, specFail: fail, key: key, tags: []string{"manager-level"}, noModel: true}
+}
+
 func c01Exec(ops []string) vResult {
+	if len(ops) > 0 && strings.HasPrefix(ops[0], "mgr ") {
+		return c01Mgr(ops)
+	}
 	c := &c01Run{tags: map[string]bool{}}
 	var out []string
 	defer func() { vS = nil }()
